@@ -193,7 +193,9 @@ def run(ctx):
     frag = ["&", "<", ">", '"', "'", "&amp;", "&lt;", "&gt;", "&quot;", "&apos;", "&#38;", "&#x3c;", "amp;", "lt", ";", "#", " ", "a", "Tom", "é", "中", "\U0001F600",
             "\t", "\n", "\r", "]]>", "<!--", "&&", "''", '""',
             # characters an escaper might be tempted to treat specially: no-break space, soft hyphen, NEL, line/paragraph separators, replacement char, a C1 control
-            "\u00a0", "\u00ad", "\u0085", "\u2028", "\u2029", "\ufffd", "\u0091", "\u200b", "\ufeff"]
+            "\u00a0", "\u00ad", "\u0085", "\u2028", "\u2029", "\ufffd", "\u0091", "\u200b", "\ufeff",
+            # text that is not in a Unicode normal form (an escaper that normalises changes it): decomposed letters, singletons, jamo, DEL
+            "e\u0301", "\u212b", "\u2126", "\uf900", "\u1100\u1161", "a\u0323\u0307", "\u007f"]
     for _ in range(ns):
         s = "".join(rng.choice(frag) for _k in range(rng.randint(0, 8)))
         evs.append(esc_event(tu, etree, s))
